@@ -506,7 +506,7 @@ def c08(res):
         return "shape=%s depth=%s backend=%s threads=%s w2m=%s fails=%s pattern=%s" % (
             r.get("desc", "")[:160], r.get("depth"), r.get("backend"), r.get("threads"), r.get("w2m"), "+".join(sorted(f)), pat)
     res.add_rejects(trace, rej, sig)
-    res.assumptions = ["volume clause is judged: |mesh volume - voxel-count volume| <= K x (surface area x cell size + 4 cell^3), K = 3 up to depth 3 and 1.5 from depth 4, both in f64",
+    res.assumptions = ["volume clause is judged: |mesh volume - voxel-count volume| <= K x (surface area x cell size + 4 cell^3), K = 3 up to depth 3; from depth 4 on 1.5 for random CSG (unclamped QEF vertices; largest ratio observed 0.82) and 0.8 for the other families (largest observed 0.16), both in f64",
                        "orientation is decided globally through the sign of the enclosed volume; per-triangle outwardness is established on the "
                        "design model only (winding rule of the dual walk), cell vertices are not constrained to their cells by the implementation",
                        "shapes: CSG of spheres/boxes, cones and cylinders around grid lines, lattice-hugging bumpy slabs; surfaces inside the region"]
